@@ -21,8 +21,9 @@ if __name__ == '__main__':
     from pyvc.typestate import analyse
     C, R = load_all()
     keys = [k for k, c in C.items() if not c.get('assumed')]
-    with mp.Pool(16) as p:
-        res = p.map(one, keys)
+    from concurrent.futures import ProcessPoolExecutor
+    with ProcessPoolExecutor(max_workers=12, mp_context=mp.get_context('fork')) as p:
+        res = list(p.map(one, keys))
     out = {k: dict(obligations=n, sha256=sha) for k, ok, n, sha in res if ok}
     for k, ok, n, sha in res:
         print(('PROVED   ' if ok else 'NOT-ALL  '), k, n)
